@@ -187,6 +187,8 @@ impl<Key> AdmissionPolicy<Key>
 
     #[cfg(feature = "verif_hooks")]
     pub(crate) fn verif_sketch_progress(&self) -> (u64, u64) { self.access_frequency.read().verif_progress() }
+    #[cfg(feature = "verif_hooks")]
+    pub(crate) fn verif_sketch_resets(&self) -> u64 { self.access_frequency.read().verif_resets() }
 
     pub(crate) fn shutdown(&self) {
         let _ = self.sender.clone().send(BufferEvent::Shutdown);
